@@ -20,6 +20,8 @@ def main():
     xg = seeds.grammar_programs("xonsh", 3 if chk.quick else 8, chk.seed)
     chk.extra["xonsh_grammar_programs"] = len(xg)
     pycommon.k0_texts(chk, o, xg, "xonsh.gram derivations k=0", wall=150 if chk.quick else 900)
+    cp = seeds.concat_product(False, 200 if chk.quick else 3000, chk.rng) + seeds.literal_product()
+    pycommon.k0_texts(chk, o, cp, "string concatenation product (all kinds) k=0", wall=150 if chk.quick else 900)
     ep = seeds.expr_product()
     pycommon.k0_texts(chk, o, ep + xs, "expression kinds x positions + xonsh forms k=0", wall=150 if chk.quick else 900)
     if chk.quick:
